@@ -1050,3 +1050,60 @@ def arm_defs(body, start_bb, local, stop=()):
         if d[1] in reach:
             out.append(d)
     return out
+
+
+def field_writes(body, field_suffix):
+    """[(bb, rvalue-sources)] for reachable statements/calls that write a place ending in `.field_suffix`"""
+    live = body.reachable(0)
+    out = []
+    for i, blk in enumerate(body.blocks):
+        if i not in live:
+            continue
+        for st in blk["s"]:
+            if st[0][1] and st[0][1][-1].endswith(field_suffix):
+                out.append((i, body.rvalue_sources(st[1], set())))
+        t = blk["t"]
+        if t.get("k") == "call" and t.get("dest") and t["dest"][1] and t["dest"][1][-1].endswith(field_suffix):
+            c = [x for x in body.calls if x.bb == i][0]
+            srcs = {"call:" + c.callee}
+            for a in c.args:
+                srcs |= body.operand_sources(a)
+            out.append((i, srcs))
+    return out
+
+
+def enum_arms_of_call(body, adt, call_pat):
+    """enum_arms restricted to switches on the *direct* result of a call matching call_pat
+    (through plain copies/moves and `.await` plumbing only), not on values merely derived from it"""
+    out = []
+    dests = set()
+    for c in body.calls_to(call_pat):
+        if c.dest and not c.dest[1]:
+            dests.add(c.dest[0])
+    changed = True
+    while changed:
+        changed = False
+        for blk in body.blocks:
+            for st in blk["s"]:
+                rv = st[1]
+                if not st[0][1] and rv.get("k") == "use" and "p" in rv["o"] and rv["o"]["p"][0] in dests and st[0][0] not in dests:
+                    # plain copy, or payload of Poll::Ready(x) produced by awaiting the call's future
+                    dests.add(st[0][0])
+                    changed = True
+        for c in body.calls:
+            if c.dest and not c.dest[1] and c.dest[0] not in dests and c.args and "p" in c.args[0] and c.args[0]["p"][0] in dests and rx(r"(IntoFuture::into_future|Future::poll|Pin::<.*>::new_unchecked|get_context)$").search(c.callee):
+                dests.add(c.dest[0])
+                changed = True
+        # `&mut fut` passed to Pin::new_unchecked
+        for blk in body.blocks:
+            for st in blk["s"]:
+                rv = st[1]
+                if not st[0][1] and rv.get("k") == "ref" and rv["p"][0] in dests and st[0][0] not in dests:
+                    dests.add(st[0][0])
+                    changed = True
+    for (sw, arms, other) in enum_arms(body, adt):
+        dl = body.blocks[sw]["t"]["d"]["p"][0]
+        for d in body.defs().get(dl, []):
+            if d[0] == "assign" and d[3].get("k") == "discr" and d[3]["p"][0] in dests:
+                out.append((sw, arms, other))
+    return out
